@@ -113,7 +113,11 @@ def r2(cx):
         k = t.args[0].cstr() if t.args and t.args[0].is_const else None
         v = t.args[1].cstr() if len(t.args) > 1 and t.args[1].is_const else "<computed>"
         envs[k] = v
-    shell = [a.cstr() for t in sp.calls() for a in t.args if a.is_const and a.cstr() and "exec " in a.cstr()]
+    def ctext(a):
+        k = a.const or {}
+        return k.get("str") or str(k.get("dbg") or "")
+    # the shell command: a string literal, or the template of a format! (a byte-string constant in the MIR)
+    shell = [ctext(a) for a in [x for t in sp.calls() for x in t.args] + [o for st in sp.stmts() if st.kind == "assign" for o in st.ops] if a.is_const and "exec " in ctext(a)]
     pid_in_shell = any("LISTEN_PID=$$" in s for s in shell)
     if pid_in_shell: envs["LISTEN_PID"] = "$$ of the shell that exec()s the service"
     if "LISTEN_PID" in envs and envs["LISTEN_PID"] == "<computed>":
@@ -160,7 +164,7 @@ def r2(cx):
     cx.floor("C16.R2", "Some(fd) results of activation_listener", len(somes), 1)
     pidvar = [t for t in co.calls("std::env::var") if var_name(t) == "LISTEN_PID"]
     if len(pidvar) != 1: raise AnchorMissing("activation_listener: env::var(LISTEN_PID)")
-    ok_edge = None; eq_edge = None
+    ok_edge = None; eq_edge = None; implied_present = False
     for b in co.blocks:
         if b.cleanup or b.term.kind != "switch": continue
         c = switch_cond(co, cdu2, b.term)
@@ -168,14 +172,20 @@ def r2(cx):
             ok_edge = variant_edge(b.term, 0)
         if c.kind == "call" and c.term.callee.name in ("eq", "ne"):
             srcs = set()
+            osl = Slice(co, cdu2, extra_pass=("=ok",))
             for a in c.term.args:
-                for k, o in csl.origins(a):
+                for k, o in osl.origins(a):
                     if k == "call": srcs.add(o.callee.name)
             if ("id" in srcs or "getpid" in srcs) and "parse" in srcs:
                 te, fe = bool_edges(b.term, c)
                 eq_edge = te if c.term.callee.name == "eq" else fe
+                # `parsed == Some(id)` / `== Ok(id)`: equality with a present value implies that the variable was present and numeric
+                psl = Slice(co, cdu2, extra_pass=("=ok", "=as_str", "=as_ref", "=deref", "=parse", "=trim"))
+                from_var = any(k == "call" and o is pidvar[0] for a in c.term.args for k, o in psl.origins(a))
+                wrapped = any(k == "agg" and isinstance(o.agg, dict) and o.agg.get("variant") in ("Some", "Ok") for a in c.term.args for k, o in csl.origins(a, follow_agg=False))
+                if from_var and wrapped: implied_present = True
     for i, s in enumerate(somes):
-        good = ok_edge is not None and eq_edge is not None and ccfg.edge_dominates(ok_edge, s.bb) and ccfg.edge_dominates(eq_edge, s.bb)
+        good = eq_edge is not None and ccfg.edge_dominates(eq_edge, s.bb) and (implied_present or (ok_edge is not None and ccfg.edge_dominates(ok_edge, s.bb)))
         cx.check(good, "C16.R2", "varlink:activation_listener:Some#%d:behind-own-pid" % i, "%s %s" % (s.sp, co.path),
                  "a descriptor is returned on a path where LISTEN_PID is absent or differs from this process: a server would adopt a socket that was not meant for it",
                  note_ok="dominated by LISTEN_PID present and == process::id()")
@@ -188,7 +198,9 @@ def r2(cx):
     cx.check(base and all(b == 3 for b in base), "C16.R2", "varlink:activation_listener:starts-at-3", co.sp, "descriptor numbering starts at %s, expected 3" % base, note_ok="SD_LISTEN_FDS_START = 3")
     eqs = [s for s, _ in const_strs(co, "eq")]
     # the compared fd name lives in a promoted constant
-    prom = [b for b in co.unit.bodies if b.path == co.path and b.promoted is not None]
+    inner = [b for b in co.unit.bodies if b.promoted is None and b.kind == "Closure" and (b.path + "::").startswith(co.path + "::")]      # e.g. `.position(|n| n == "varlink")`
+    for cb in inner: eqs += [s for s, _ in const_strs(cb, "eq")]
+    prom = [b for b in co.unit.bodies if (b.path == co.path or any(b.path == cb.path for cb in inner)) and b.promoted is not None]
     lits = []
     for b in prom:
         for s in b.stmts():
